@@ -321,6 +321,14 @@ fn target_bits(rng: &mut Rng, lay: Lay) -> (bool, u128) {
 /// `b` such that the exact product `(a*b) >> f` lands within a few ulp of a
 /// range boundary or of zero (class 3).  Falls back to `gen_bits`.
 pub fn gen_mul_partner(rng: &mut Rng, lay: Lay, a: u128) -> u128 {
+    if lay.n == 128 && rng.chance(1, 5) {
+        // directed: middle-column carry boundary of the 128-bit schoolbook product
+        for _ in 0..4 {
+            if let Some(b) = gen_mul_carry_partner(rng, lay, a) {
+                return b;
+            }
+        }
+    }
     let (an, am) = sign_mag(lay, a);
     if am == 0 {
         return gen_bits(rng, lay);
@@ -1095,7 +1103,26 @@ pub fn gen_trans_operand(rng: &mut Rng, s: Lay, d: Lay, kind: u32) -> u128 {
     let ulp = rng.range(-3, 3) as i128 as u128;
     let int_d = d.n - d.f - d.signed as u32; // magnitude bits of D
     match kind {
-        0 => match rng.below(12) {
+        0 => match rng.below(14) {
+            12 => {
+                // simple fractions p/q (4/9, 1/9, 4/25, ...): their reciprocals are (near) perfect squares / short
+                // rationals, where truncating iterations oscillate instead of converging
+                let p = 1 + rng.below(16) as u128;
+                let q = 2 + rng.below(24) as u128;
+                let v = (p << s.f) / q;
+                (v.wrapping_add(ulp)) & s.max_bits()
+            }
+            13 => {
+                // reciprocal of a perfect square (k/2^h)^2, +- few ulp
+                let h = s.f / 2;
+                let m = 3 + (rng.next128() & mask((rng.below(10) + 2) as u32));
+                let sq = (m * m) << (s.f - 2 * h);
+                let (hi, lo) = shl_256(1, 2 * s.f);
+                match divrem_256_128(hi, lo, sq.max(1)) {
+                    Some((q, _)) => q.wrapping_add(ulp) & s.max_bits(),
+                    None => one,
+                }
+            }
             0 => *rng.pick(&[0u128, 1, 2, 3]),
             1 => one.wrapping_add(ulp) & s.mask(),
             2 => s.max_bits().wrapping_sub(rng.below(3) as u128),
@@ -1203,5 +1230,81 @@ pub fn gen_trans_operand(rng: &mut Rng, s: Lay, d: Lay, kind: u32) -> u128 {
             3 => gen_trans_operand(rng, s, d, 2),
             _ => gen_bits(rng, s),
         },
+    }
+}
+
+// ------------------------------------------------------------------ directed: schoolbook middle-column carry boundary (128-bit)
+
+/// sign-magnitude 256-bit helper: (neg, hi, lo)
+type Sm = (bool, u128, u128);
+
+fn sm_add(a: Sm, b: Sm) -> Sm {
+    if a.0 == b.0 {
+        let (lo, c) = a.2.overflowing_add(b.2);
+        (a.0, a.1.wrapping_add(b.1).wrapping_add(c as u128), lo)
+    } else {
+        // a + b with opposite signs: larger magnitude wins
+        let a_ge = (a.1, a.2) >= (b.1, b.2);
+        let (x, y) = if a_ge { (a, b) } else { (b, a) };
+        let (lo, br) = x.2.overflowing_sub(y.2);
+        (x.0, x.1.wrapping_sub(y.1).wrapping_sub(br as u128), lo)
+    }
+}
+
+/// For a 128-bit operand `a` (limbs lh:ll), a partner `b` (rh:rl) such that the middle column of the
+/// schoolbook product, lh*rl + ll*rh, lands within one low-limb multiple of a wrap boundary
+/// (k*2^128 for the unsigned carry, +-2^127 for the signed overflow): the carry out of that column then
+/// depends on the high half of ll*rl, i.e. both "just carries" and "just does not carry" are produced.
+/// This is the adversarial input for the carry handling named in C01's anchors (found necessary by the
+/// reach audit / seeded changes C01-E, C02-E: random and boundary operands hit this with p ~ 2^-65).
+pub fn gen_mul_carry_partner(rng: &mut Rng, lay: Lay, a: u128) -> Option<u128> {
+    if lay.n != 128 {
+        return None;
+    }
+    let ll = a & (u64::MAX as u128);
+    if ll == 0 {
+        return None;
+    }
+    let lh_u = a >> 64;
+    let (lh_neg, lh_mag) = if lay.signed && (lh_u >> 63) == 1 {
+        (true, (lh_u as u64 as i64).unsigned_abs() as u128)
+    } else {
+        (false, lh_u)
+    };
+    let rl = match rng.below(4) {
+        0 => u64::MAX as u128,
+        1 => (u64::MAX as u128) - rng.below(4) as u128,
+        _ => (rng.next() as u128) | (1u128 << 63),
+    };
+    // P = lh * rl (sign-magnitude, < 2^128)
+    let p: Sm = (lh_neg, 0, lh_mag.wrapping_mul(rl));
+    // target A = k*2^128 + t
+    let t = if lay.signed && rng.chance(1, 2) { 1u128 << 127 } else { 0 };
+    let k = rng.range(-1, 1);
+    let a_sm: Sm = if k >= 0 {
+        (false, k as u128, t)
+    } else if t == 0 {
+        (true, 1, 0)
+    } else {
+        (true, 0, 1u128 << 127)
+    };
+    // N = A - P
+    let n = sm_add(a_sm, (!p.0, p.1, p.2));
+    let (q, _) = divrem_256_128(n.1, n.2, ll)?;
+    let q = q.wrapping_add(rng.range(-1, 1) as i128 as u128);
+    if lay.signed {
+        if q > (1u128 << 63) {
+            return None;
+        }
+        let rh = if n.0 { (q as u64).wrapping_neg() } else { q as u64 };
+        if !n.0 && q == (1u128 << 63) {
+            return None;
+        }
+        Some(((rh as u128) << 64) | rl)
+    } else {
+        if n.0 || q > u64::MAX as u128 {
+            return None;
+        }
+        Some((q << 64) | rl)
     }
 }
